@@ -451,6 +451,22 @@ example : publisherPublish Wire.envCodec "" "dest" [("#1", ⟨"a", some [1], non
 
 /-! ### CQRS marshalers -/
 
+/-- the hypothesis is necessary: an encoder that maps two different values to the same bytes (one that drops part of
+    the value – e.g. gogo's reflective encoder on a new-API message with unknown fields, finding
+    `gogo-marshaler-new-api-message-unknown-fields`) admits no decoder for which Unmarshal∘Marshal is the identity -/
+theorem lossy_encoder_breaks_round_trip {α : Type} (mar : Marshaler α) (u : String) (x y : α) (b : Bytes) (hxy : x ≠ y)
+    (hx : mar.codec.enc x = some b) (hy : mar.codec.enc y = some b) :
+    ¬ (∀ v msg, marshal mar u v = some msg → unmarshal mar msg = some v) := by
+  intro h
+  have h1 := h x ⟨u, some b, some (set [] nameKey (mar.name x))⟩ (by simp [marshal, hx])
+  have h2 := h y ⟨u, some b, some (set [] nameKey (mar.name y))⟩ (by simp [marshal, hy])
+  simp only [unmarshal, Msg.bytes, Option.getD_some] at h1 h2
+  rw [h1] at h2
+  exact hxy (Option.some.inj h2)
+
+example : (⟨⟨fun (v : Bytes) => some (v.take 1), fun b => some b⟩, fun _ => "n"⟩ : Marshaler Bytes).codec.enc [1, 2]
+    = (⟨⟨fun (v : Bytes) => some (v.take 1), fun b => some b⟩, fun _ => "n"⟩ : Marshaler Bytes).codec.enc [1, 3] := by decide
+
 /-- **Unmarshal after Marshal is the identity** (JSON, Protobuf, gogo Protobuf marshalers: same glue, different library codec) -/
 theorem marshal_round_trip {α : Type} (mar : Marshaler α) (hc : mar.codec.RoundTrips) (u : String) (v : α) (msg : Msg)
     (h : marshal mar u v = some msg) : unmarshal mar msg = some v := by
